@@ -4,11 +4,11 @@ SPEC = {
     "lean_modules": ["PallasVerif.Props.C04"],
     "required_theorems": [
         "positiveCoin_decoded_nonzero", "nonZeroInt_decoded_nonzero", "decoded_satisfies_checked_constructor",
-        "zero_encodings_rejected", "value_quantities_nonzero", "mint_quantities_nonzero", "donation_nonzero",
+        "zero_encodings_rejected", "value_quantities_nonzero", "mint_quantities_nonzero", "donation_nonzero", "positiveCoin_accepts_only_uint_heads", "nonZeroInt_accepts_only_int_heads",
     ],
     "streams": [{"name": "numwrap", "quick": 1500, "thorough": 150000}],
     "rule": "1..4 ops per case over {pcoin, nzi, value, mint, donation <hex>, try_pcoin, try_nzi <n>}; integers boundary-weighted "
-            "(0, 1, 2, 23, 24, 255, 65536, 2^63-1, 2^64-1, +-), every head width that can carry the value; Value/Mint with 0..2 "
+            "(0, 1, 2, 23, 24, 255, 65536, 2^63-1, 2^64-1, +-), every head width that can carry the value, 1 in 10 as an RFC 8949 bignum (tag 2/3 + empty/minimal/zero-padded bytes); Value/Mint with 0..2 "
             "policies x 0..2 assets, definite or indefinite outer map, duplicate policy ids / asset names, zero quantities in ~1/4 "
             "of the positions; donation spliced into a real conway::TransactionBody; non-trivial = the case has both an accepted "
             "non-zero quantity and an encoding rejected with the message class. distinct = sha1 of op text.",
